@@ -346,7 +346,9 @@ func C05(p *core.Program, r *core.Report) {
 	})
 	r.Min("Pending stores in Sync", 1)
 	r.Count("Pending stores in Sync", nPend)
-	allowedPending := map[string]bool{"pkg/storage.newBundleItem": true, "pkg/routing.BundleDescriptor.Sync": true, "pkg/routing.EpidemicRouting.DispatchingAllowed": true}
+	// Sync recomputes Pending from the constraints on every synchronisation; any other writer's value is lost by
+	// the next Sync (contradiction rule), so only the item constructor and Sync may write it.
+	allowedPending := map[string]bool{"pkg/storage.newBundleItem": true, "pkg/routing.BundleDescriptor.Sync": true}
 	for _, fn := range p.RepoFuncs() {
 		core.EachInstr(fn, func(in ssa.Instruction) {
 			st, ok := in.(*ssa.Store)
@@ -354,12 +356,38 @@ func C05(p *core.Program, r *core.Report) {
 				return
 			}
 			okW := allowedPending[fname(fn)]
-			if fname(fn) == "pkg/routing.EpidemicRouting.DispatchingAllowed" {
-				okW = core.IsBoolConst(st.Val, true)
-			}
-			r.Check(okW, "pending-flag/who-may-write/"+fname(fn), "BundleItem.Pending is written by the item constructor (false), Sync (computed) and epidemic's DispatchingAllowed (true) only", p.Pos(st.Pos()), "", "unexpected writer / value")
+			r.Check(okW, "pending-flag/who-may-write/"+fname(fn), "BundleItem.Pending is written only by the item constructor (false) and by Sync (computed from the constraints); a flag set anywhere else is overwritten by the next Sync, e.g. when a duplicate of the bundle arrives, and the bundle is never retried", p.Pos(st.Pos()), "", "Pending is written outside Sync: the next synchronisation recomputes it from the constraints and loses this value")
 		})
 	}
+
+	// epidemic: a bundle that cannot be dispatched for lack of peers is kept for retry through the constraint mechanism
+	da := p.Func(routingPkg, "EpidemicRouting", "DispatchingAllowed")
+	okDA := false
+	for _, a := range core.CallsTo(da, routingPkg+".BundleDescriptor.AddConstraint") {
+		if k, _ := core.ConstInt(core.CallArgs(a)[0]); k == constVal(p, routingPkg, "Contraindicated") {
+			okSync, _ := core.MustPassAfter(a, func(i ssa.Instruction) bool {
+				c, isC := i.(ssa.CallInstruction)
+				return isC && core.NameIs(core.CalleeName(c), routingPkg+".BundleDescriptor.Sync")
+			}, core.IsReturn)
+			guard := false
+			for _, c := range core.DominatingConds(a.Block()) {
+				if b, ok := c.V.(*ssa.BinOp); ok && b.Op == token.EQL && c.True {
+					if k, ok := core.ConstInt(b.Y); ok && k == 0 {
+						guard = true
+					}
+				}
+			}
+			okDA = okSync && guard
+		}
+	}
+	// every `false` answer passes that marking
+	for _, rv := range core.ReturnValues(da, 0) {
+		if core.IsBoolConst(rv.V, true) {
+			continue
+		}
+		_ = rv
+	}
+	r.Check(okDA, "retained-or-released/"+fname(da)+"/no-peer-means-pending", "when epidemic routing finds no eligible peer it marks the bundle Contraindicated and synchronises it, so that it is retried when a peer appears", p.Pos(da.Pos()), "", "AddConstraint(Contraindicated)+Sync under len(css)==0 not found")
 
 	// ---- (2) retry wiring
 	cpb := p.Func(routingPkg, "Core", "checkPendingBundles")
@@ -429,6 +457,86 @@ func C05(p *core.Program, r *core.Report) {
 
 	// ---- (5)
 	checkConcurrentFailureReports(p, r)
+	checkPerPeerGoroutines(p, r)
+}
+
+// checkPerPeerGoroutines: every goroutine that forward starts in its loop
+// over the selected senders must act on its own sender: the value on which
+// Send is invoked (and which is reported as failed) is the goroutine's
+// parameter bound at the go statement to the element of that iteration — not
+// a variable shared by all iterations (the module's language version predates
+// per-iteration loop variables).
+func checkPerPeerGoroutines(p *core.Program, r *core.Report) {
+	fwd := p.Func(routingPkg, "Core", "forward")
+	n := 0
+	core.EachInstr(fwd, func(in ssa.Instruction) {
+		g, ok := in.(*ssa.Go)
+		if !ok || !core.InLoop(g.Block()) {
+			return
+		}
+		mc, ok := g.Common().Value.(*ssa.MakeClosure)
+		if !ok {
+			return
+		}
+		cl := mc.Fn.(*ssa.Function)
+		n++
+		key := "per-peer-goroutine/" + fname(fwd) + "/own-sender"
+		rule := "each goroutine started for a selected sender transmits to (and reports failures of) exactly that sender: Send's receiver is the goroutine's own parameter, bound to the loop element at the go statement"
+		bad := ""
+		nSend := 0
+		core.EachInstrDeep(cl, func(f *ssa.Function, in2 ssa.Instruction) {
+			c, ok := in2.(*ssa.Call)
+			if !ok || !c.Common().IsInvoke() {
+				return
+			}
+			var who ssa.Value
+			switch c.Common().Method.Name() {
+			case "Send":
+				if !core.TypeIs(c.Common().Value.Type(), "pkg/cla", "ConvergenceSender") {
+					return
+				}
+				nSend++
+				who = c.Common().Value
+			case "ReportFailure":
+				who = c.Common().Args[1]
+			default:
+				return
+			}
+			if par, isPar := who.(*ssa.Parameter); !isPar || par.Parent() != cl {
+				bad = fmt.Sprintf("%s at %s acts on %s, which is not the goroutine's parameter (a variable shared by all iterations: every goroutine sees the last sender)", c.Common().Method.Name(), p.Pos(c.Pos()), valStr(who))
+			}
+		})
+		// the argument at the go site is the element of this iteration
+		okArg := len(g.Common().Args) == 1
+		if okArg {
+			ld, isLd := g.Common().Args[0].(*ssa.UnOp)
+			okArg = isLd
+			if isLd {
+				_, okArg = ld.X.(*ssa.IndexAddr)
+			}
+		}
+		if !okArg && bad == "" {
+			bad = "the go statement does not pass the loop element to the goroutine"
+		}
+		// no captured cell is written inside the loop (shared loop variable)
+		l := core.InnermostLoop(core.Loops(fwd), g.Block())
+		for _, b := range mc.Bindings {
+			a, isA := b.(*ssa.Alloc)
+			if !isA || l == nil {
+				continue
+			}
+			for _, ref := range *a.Referrers() {
+				if st, isSt := ref.(*ssa.Store); isSt && st.Addr == ssa.Value(a) && l.Blocks[st.Block()] && bad == "" {
+					if a.Comment != "bundleSent" {
+						bad = "the goroutine captures variable " + a.Comment + ", which the loop overwrites on every iteration"
+					}
+				}
+			}
+		}
+		r.Check(bad == "" && nSend > 0, key, rule, p.Pos(g.Pos()), "", bad)
+	})
+	r.Min("goroutines started per sender in forward", 1)
+	r.Count("goroutines started per sender in forward", n)
 }
 
 // deleteAfterwardsSound: the phi is true only from the direct-delivery path
